@@ -145,7 +145,14 @@ func checkConv(id, typ, tier, replay string) int {
 		}
 		if o.Conv != nil {
 			key := typ + ":" + live + o.Conv.Name
-			key = convFindingKey(typ, key, g, o)
+			if len(g.Edits) == 1 && strings.HasPrefix(g.Edits[0], "repro:regress-") {
+				// Reproducer of a repaired or seeded defect on which the
+				// unchanged tool converges: never filed under a known
+				// limitation, whatever the inputs look like.
+				key += ":" + strings.TrimPrefix(g.Edits[0], "repro:")
+			} else {
+				key = convFindingKey(typ, key, g, o)
+			}
 			rep.Violation(key, o.Conv.What+fmt.Sprintf(" [seed=%d edits=%v]", g.Seed, g.Edits), func(dir string) {
 				writeConvReplay(dir, g, o)
 			})
@@ -279,8 +286,10 @@ func fixedPairs(env *run.Env, typ string) []*genCase {
 		return g
 	}
 	// Pairs kept as files: /verif/fixed/<type>/<name>/{device,router}
-	// (inputs on which a thorough run showed a known limitation; they
-	// keep its class key exercised at every seed).
+	// known-*: inputs on which a thorough run showed a known limitation
+	// (they keep its class key exercised at every seed); regress-*: inputs
+	// on which the unchanged tool converges and a repaired or seeded defect
+	// did not (their violations never match a known finding).
 	var fromFiles []*genCase
 	dirs, _ := filepath.Glob(filepath.Join(env.Verif, "fixed", typ, "*"))
 	sort.Strings(dirs)
